@@ -169,6 +169,7 @@ if (jcol == BADPAN)
 
 		/* Here, krep cannot possibly be "busy" */
 		krep = SUPER_REP( supno[kperm] );
+		SLU_MT_VERIF_EVENT(14, pnum, krep, kperm, jcol);
 		myfnz = repfnz_col[krep];
 
 #ifdef CHK_DFS
